@@ -111,7 +111,21 @@ func (fs *FS) OpenReader(dir string, name string) (types.ReadableFile, error) {
 // about the well-formedness of the file, it may be empty, the wrong size or
 // corrupt in arbitrary ways.
 func (fs *FS) OpenWriter(dir string, name string) (types.WritableFile, error) {
-	return os.OpenFile(filepath.Join(dir, name), os.O_RDWR, os.FileMode(0644))
+	f, err := os.OpenFile(filepath.Join(dir, name), os.O_RDWR, os.FileMode(0644))
+	if err != nil {
+		return nil, err
+	}
+	// We can't know whether the directory entry of this file was ever made
+	// durable: it may have been created by a previous process (or a previous
+	// open of the WAL) that never got as far as the first Sync. Treat it like a
+	// new file so the first Sync also fsyncs the parent dir, otherwise entries
+	// acknowledged from now on could vanish with the file after a power loss.
+	fi := &File{
+		new:  0,
+		dir:  dir,
+		File: *f,
+	}
+	return fi, nil
 }
 
 func syncDir(dir string) error {
